@@ -123,6 +123,9 @@ class IdealEvaluator(Evaluator):
         super().__init__(*a, **k)
         self.allowed = allowed
 
+    def visible(self, p, e):
+        return bool(self.allowed(p.num, e.num))
+
     def read(self, e, sel):
         acc = {}
         for colour in ("red", "green"):
@@ -251,7 +254,19 @@ def judge(src, *, optimize=True, power_pole_type=None, rnd=None, scalar_own_sign
             try:
                 content = ev.anchor_content(a)
             except Cyclic:
-                pv.outputs.append(OutputVerdict(name, "skip", "cyclic circuit"))
+                # a stateless program whose circuit has a wire-level cycle: some combinator's output reaches its own input
+                # network (input networks joined by chained wires).  Not skipped: if the circuit restricted to the compiler's own
+                # signal graph (ideal isolation) gives the S3 value, this is the wire-isolation class (crosstalk); otherwise a mismatch.
+                if ideal is None:
+                    ideal = IdealEvaluator(c, B, overrides=overrides, free_outputs=free, allowed=_edge_filter(cap, c))
+                try:
+                    icontent = ideal.anchor_content(a)
+                    ipairs = expected_pairs(B, val, icontent, a.desc)
+                    ist = _differs(B, ipairs)[0] if ipairs is not None else "unknown"
+                except (Cyclic, Unsupported):
+                    ist = "unknown"
+                pv.outputs.append(OutputVerdict(name, "crosstalk" if ist == "same" else "mismatch",
+                                                "cyclic circuit: an output is wired back into its own input network", {"cyclic": True}))
                 continue
             except Unsupported as e:
                 pv.outputs.append(OutputVerdict(name, "skip", f"S2 unsupported: {e}"))
